@@ -822,3 +822,33 @@ def int_arms(body, place_ok=None):
 def exit_in(body, region, exs=None):
     exs = exs if exs is not None else exits(body)
     return [x for x in exs if x['node'] in region]
+
+
+def identity_on_ok(P, path):
+    """every success exit of `path` returns its first parameter unchanged (a pure check such as limited_count)"""
+    b = P.get(path)
+    if b is None or b.is_async:
+        return False
+    xs = ok_exits(b)
+    if not xs:
+        return False
+    for x in xs:
+        if x['kind'] != 'agg' or x['variant'] not in ('Ok', 'Some'):
+            return False
+        s = sem(b, x['rv']['a'][0])
+        if not (s.kind == 'place' and s.local == 1 and s.proj == ()):
+            return False
+    return True
+
+
+def through_checks(P, body, o):
+    """semantic origin of an operand, looking through checked identity-on-success calls (value-preserving checks)"""
+    s = sem(body, o)
+    guard = 0
+    while s.kind == 'call' and s.checked and s.proj == ('<ok>',) and guard < 6:
+        ok = any(P.has(n) and identity_on_ok(P, n) for n in s.cs.names())
+        if not ok:
+            break
+        s = sem(body, s.cs.args[0])
+        guard += 1
+    return s
